@@ -1,1 +1,43 @@
-From BT Require Import Properties.C09.
+(* Pins: the statements of Properties/C09.v cannot be weakened without this file failing. *)
+From BT Require Import Base.Util Base.LE Base.Float Generated.Consts Model.RTree Model.BBIFile Model.BigWigWrite
+  Proofs.RTreeCodec Proofs.RTreeBuild Proofs.FileRegions Spec.FormatDecode Proofs.C09Base Proofs.C09Codec Proofs.C09Chrom Proofs.C09RTree
+  Properties.C09.
+Local Open Scope N_scope.
+
+Check (C09_header_codec : forall img n magic nz ct dof ix fc dfc asql so ubuf,
+  has_at img 0 (header_bytes magic nz ct dof ix fc dfc asql so ubuf) -> n = Nlen img ->
+  nz < W16 -> ct < W64 -> dof < W64 -> ix < W64 -> fc < W16 -> dfc < W16 -> asql < W64 -> so < W64 -> ubuf < W32 ->
+  parse_header img n false =
+    Some {| fh_version := 4; fh_nzoom := nz; fh_ctoff := ct; fh_dataoff := dof; fh_ixoff := ix; fh_fc := fc;
+            fh_dfc := dfc; fh_asql := asql; fh_sumoff := so; fh_ubuf := ubuf; fh_ext := 0 |}).
+Check (C09_zoom_directory_codec : forall img n zs, has_at img 64 (flat_map zoom_header_bytes zs) -> n = Nlen img ->
+  Forall zh_ok zs -> parse_zoomhdrs img n false (Nlen zs) = Some (map zh_view zs)).
+Check (C09_summary_codec : forall img n off s, has_at img off (summary_bytes s) -> n = Nlen img -> su_bases s < W64 ->
+  parse_summary img n false off = Some (sum_view s)).
+Check (C09_section_codec : forall chrom items sd, encode_section chrom items = Ok sd ->
+  chrom < W32 -> Forall val_ok items -> Nlen items < W16 ->
+  parse_wig_section false (sd_bytes sd) = Some (sd_chrom sd, sd_start sd, sd_end sd, map (rec_of chrom) items)
+  /\ sd_chrom sd = chrom /\ Nlen (sd_bytes sd) = 24 + 12 * Nlen items
+  /\ exists f, hd_error items = Some f /\ sd_start sd = v_start f /\ sd_end sd = v_end (last items f)).
+Check (C09_zoom_record_codec : forall fp recs, Forall zrec_ok recs ->
+  parse_zoom_items false (length recs) (flat_map (zrec_bytes fp) recs) = map (zr_view fp) recs).
+Check (C09_zoom_section_codec : forall fp recs sd, encode_zoom_section fp recs = Ok sd -> Forall zrec_ok recs ->
+  Nlen (sd_bytes sd) = 32 * Nlen recs
+  /\ parse_zoom_items false (N.to_nat (Nlen (sd_bytes sd) / 32)) (sd_bytes sd) = map (zr_view fp) recs
+  /\ exists f, hd_error recs = Some f /\ sd_chrom sd = z_chrom f /\ sd_start sd = z_start f /\ sd_end sd = z_end (last recs f)).
+Check (C09_chrom_tree_codec : forall img n off sizes (chroms : idmap) ct (strict : bool),
+  chrom_tree_bytes sizes chroms = Ok ct -> has_at img off ct -> n = Nlen img ->
+  chroms <> [] -> Nlen chroms < W16 ->
+  Forall (fun c => name_ok (fst c) /\ Nlen (fst c) < W32 /\ size_of sizes c < W32) chroms ->
+  map snd chroms = seqN 0 (length chroms) ->
+  (strict = true -> names_increasing (map fst chroms)) ->
+  parse_chrom_tree img n false strict off = Some (map (chrom_view sizes) chroms, off + Nlen ct)
+  /\ Nlen ct = 36 + Nlen chroms * (N.of_nat (fold_left (fun a c => Nat.max a (length (fst c))) chroms 0%nat) + 8)).
+Check (C09_rtree_codec : forall img n off lo hi b ips secs bs lv,
+  write_index b ips off secs = Ok (bs, lv) -> has_at img off bs -> n = Nlen img -> n < W64 ->
+  2 <= b <= 65535 -> 1 <= ips < W32 -> secs <> [] -> sorted_starts (map sect_span secs) -> Forall sect_ok secs ->
+  Nlen secs <= n ->
+  Forall (fun s => lo <= s_off s /\ s_off s + s_size s <= hi /\ 1 <= s_size s /\ s_start s <= s_end s) secs ->
+  offs_chain secs ->
+  exists h e, parse_index img n false off lo hi = Some (h, map lf_of secs, e)
+    /\ ih_block h = b /\ ih_ips h = ips /\ ih_count h = Nlen secs /\ off + 48 <= e <= off + Nlen bs).
